@@ -152,6 +152,12 @@ def enumerate_cases(tier, seed):
     for lo in range(0, len(bs), step):
         yield ("operators", {"bases": bs[lo : lo + step]})
     yield ("misuse", {"bases": bs})
+    # a system one of whose components is not generable: generating from it is misuse on every random path
+    from . import c13
+
+    for k_, d_ in c13.enumerate_cases(tier, seed):
+        if k_ == "refusal-component":
+            yield ("sys-component", d_)
     from .c01 import corpus
 
     term = list(bs)
@@ -201,6 +207,26 @@ def eval_case(kind, data):
 
     res = new_result()
     ops = set()
+    if kind == "sys-component":
+        from . import c13
+
+        r13 = c13.eval_refusal_component(new_result(), data)
+        for v in r13["viol"]:
+            viol(res, v["key"].replace("C13|", "C15|"), v["what"], v["detail"])
+        st_, sysobj = run_limited(lambda: gbigsmiles.System(data["text"], data["ext"]), (), 20)
+        if st_ == "ok":
+            try:
+                if bool(sysobj.generable):
+                    viol(res, "C15|system-with-non-generable-component-reports-generable", f"System({data['text']!r}, {data['ext']}).generable is True although the component {data['bad']!r} is not generable", {"text": data["text"]})
+            except Exception:  # noqa
+                pass
+        for k_ in ("states", "transitions", "traces"):
+            res[k_] = r13[k_]
+        res["evals"] = r13["traces"]
+        res["nontrivial"] = ["sys-component", data["text"]]
+        res["sample"] = r13["sample"]
+        res["outcomes"] = r13["outcomes"]
+        return res
     if kind == "operators":
         for b in data["bases"]:
             got, det = attempt(b)
